@@ -9,3 +9,8 @@ pub fn take_children(parent: &ActorCell) -> Vec<ActorCell> {
 pub fn children(parent: &ActorCell) -> Option<Vec<ActorCell>> {
     parent.inner.tree.children.lock().unwrap().as_ref().map(|m| m.values().cloned().collect())
 }
+
+/// take the global tree lock (native race replays: park a structural operation of another thread on it)
+pub fn lock_tree() -> std::sync::MutexGuard<'static, ()> {
+    TREE_MUTATION_LOCK.lock().unwrap()
+}
